@@ -491,7 +491,7 @@ def _list_method(interp, lst, name):
             if name == 'pop' and a and isinstance(a[0], Sym):
                 a = (interp.concrete_index(a[0]),)
             try:
-                return getattr(list, name)(lst, *a, **k)
+                return _b.getattr(list, name)(lst, *a, **k)
             except IndexError as e:
                 _raise('IndexError', str(e))
         return mut
@@ -517,7 +517,7 @@ def _dict_method(interp, d, name):
             if name == 'update' and a and hasattr(a[0], 'sym_to_dict'):
                 a = (a[0].sym_to_dict(interp),)
             try:
-                return getattr(dict, name)(d, *a, **k)
+                return _b.getattr(dict, name)(d, *a, **k)
             except KeyError as e:
                 _raise('KeyError', *e.args)
         return mut
@@ -539,7 +539,7 @@ def _set_method(interp, s, name):
         def mut(*a, **k):
             interp._note_mutation(s)
             try:
-                return getattr(set, name)(s, *a, **k)
+                return _b.getattr(set, name)(s, *a, **k)
             except KeyError as e:
                 _raise('KeyError', *e.args)
         return mut
@@ -596,7 +596,7 @@ F64_EPS = Fraction(1, 2 ** 52)
 F64_MAX = Fraction((2 ** 53 - 1) * 2 ** (1023 - 52))
 F64_MIN = Fraction(1, 2 ** 1022)
 
-NDARRAY = TypeToken('np.ndarray', lambda x: isinstance(x, (Lane, Arr2)) or getattr(x, 'is_ndarray', False))
+NDARRAY = TypeToken('np.ndarray', lambda x: isinstance(x, (Lane, Arr2)) or _b.getattr(x, 'is_ndarray', False))
 NP_FLOAT32 = TypeToken('np.float32', lambda x: False)
 NP_FLOATING = TypeToken('np.floating', lambda x: isinstance(x, Sym) and x.t.sort == 'R')
 NP_INTEGER = TypeToken('np.integer', lambda x: isinstance(x, Sym) and x.t.sort == 'I')
@@ -630,6 +630,29 @@ def np_exp(x):
 @model('np.log', 'np.log is the real natural logarithm, elementwise; argument > 0 is a safety obligation')
 def np_log(x):
     return values.apply1('log', _num(x))
+
+
+@model('np.log1p/expm1/square/reciprocal/negative', 'np.log1p(x) = log(1+x), np.expm1(x) = exp(x)-1, np.square(x) = x*x, '
+       'np.reciprocal(x) = 1/x, np.negative(x) = -x (real functions, elementwise)')
+def np_log1p(x):
+    return values.apply1('log', _num(x) + 1)
+
+
+def np_expm1(x):
+    return values.apply1('exp', _num(x)) - 1
+
+
+def np_square(x):
+    x = _num(x)
+    return x * x
+
+
+def np_reciprocal(x):
+    return 1 / _num(x)
+
+
+def np_negative(x):
+    return -_num(x)
 
 
 @model('np.sqrt', 'np.sqrt is the real square root, elementwise; argument >= 0 is a safety obligation')
@@ -1289,7 +1312,10 @@ class _RS(TypeToken):
 NP_RANDOM._table['RandomState'] = _RS('np.random.RandomState', lambda x: isinstance(x, RandomStateObj))
 
 NP = Stub('numpy', {
-    'power': np_power, 'exp': np_exp, 'log': np_log, 'sqrt': np_sqrt, 'abs': np_abs, 'absolute': np_abs,
+    'power': np_power, 'exp': np_exp, 'log': np_log, 'log1p': np_log1p, 'expm1': np_expm1, 'square': np_square,
+    'reciprocal': np_reciprocal, 'negative': np_negative, 'multiply': lambda a, b: _num(a) * _num(b),
+    'add': lambda a, b: _num(a) + _num(b), 'subtract': lambda a, b: _num(a) - _num(b),
+    'divide': lambda a, b: _num(a) / _num(b), 'true_divide': lambda a, b: _num(a) / _num(b), 'sqrt': np_sqrt, 'abs': np_abs, 'absolute': np_abs,
     'sign': np_sign, 'array': np_array, 'asarray': np_asarray, 'zeros': np_zeros, 'ones': np_ones, 'full': np_full,
     'column_stack': np_column_stack, 'clip': np_clip, 'minimum': np_minimum, 'maximum': np_maximum,
     'choose': np_choose, 'where': np_where, 'logical_or': np_logical_or, 'logical_and': np_logical_and,
@@ -1334,6 +1360,51 @@ def _contextmanager(f):
         def sym_getattr(self, interp, name):
             return interp.getattr(f, name)
     return CMFactory()
+
+
+class LruCached(object):
+    """functools.lru_cache(f): ASSUMED CONTRACT - a call either computes f(args) (miss) or returns the value computed
+    by an EARLIER call with hash-equal arguments (hit). Objects hash by identity, so at the time of that earlier
+    call their mutable attributes may have held any other values: a hit is modelled by evaluating f with every
+    attribute of the object arguments replaced by an arbitrary value of the same kind."""
+    binds_as_method = True
+
+    def __init__(self, f):
+        self.f = f
+
+    def sym_call(self, interp, args, kwargs):
+        from .interp import Obj
+        USED['functools.lru_cache'] = LruCached.__doc__
+        c = State.ctx
+        k = c.choose(['lru miss', 'lru hit (stale state possible)'])
+        if k == 0:
+            return interp.call(self.f, args, kwargs)
+        saved = []
+        for a in list(args) + list(kwargs.values()):
+            if isinstance(a, Obj):
+                saved.append((a, dict(a.attrs)))
+                for name, v in list(a.attrs.items()):
+                    if isinstance(v, Sym) and v.t.sort in ('R', 'I'):
+                        a.attrs[name] = Sym(c.fresh('stale_' + name, v.t.sort))
+        try:
+            return interp.call(self.f, args, kwargs)
+        finally:
+            for a, d in saved:
+                a.attrs = d
+
+    def sym_getattr(self, interp, name):
+        if name in ('cache_clear',):
+            return lambda: None
+        if name == 'cache_info':
+            return lambda: None
+        return interp.getattr(self.f, name)
+
+
+def _lru_cache(*a, **k):
+    from .interp import FuncVal
+    if len(a) == 1 and isinstance(a[0], FuncVal) and not k:
+        return LruCached(a[0])
+    return lambda f: LruCached(f)
 
 
 class _WarnCM(object):
@@ -1401,7 +1472,7 @@ EXTERNAL = {
     'warnings': Stub('warnings', {'warn': lambda *a, **k: None, 'catch_warnings': lambda *a, **k: _WarnCM(),
                                   'simplefilter': lambda *a, **k: None, 'filterwarnings': lambda *a, **k: None}),
     'logging': Stub('logging', {'getLogger': lambda *a: _Logger()}),
-    'functools': Stub('functools', {'wraps': _wraps}),
+    'functools': Stub('functools', {'wraps': _wraps, 'lru_cache': _lru_cache, 'cache': _lru_cache}),
     'contextlib': Stub('contextlib', {'contextmanager': _contextmanager}),
     'copy': Stub('copy', {'deepcopy': _deepcopy}),
     'importlib': Stub('importlib', {'import_module': _import_module}),
@@ -1426,3 +1497,48 @@ def opaque_getattr(obj, name):
 
 
 Opaque.sym_getattr = lambda self, interp, name: opaque_getattr(self, name)
+
+
+# ------------------------------------------------------------------------------------------------
+# scipy
+# ------------------------------------------------------------------------------------------------
+
+BRENTQ_CALLS = []
+
+
+@model('scipy.optimize.brentq', 'brentq(f, a, b): REQUIRES f returns a Python/0-d scalar (numpy >= 2 raises TypeError for a '
+       '(1,) array) and f(a)*f(b) <= 0 (else ValueError "f(a) and f(b) must have different signs"); ENSURES the result '
+       'r lies in [a, b] and f(r) = 0 (continuous f; xtol=2e-12 neglected)')
+def sp_brentq(f, a, b, *args, **kw):
+    I = _I()
+    c = State.ctx
+    fa = I.call(f, [Sym(to_term(a))], {})
+    fb = I.call(f, [Sym(to_term(b))], {})
+    for name, v in (('f(a)', fa), ('f(b)', fb)):
+        if isinstance(v, (Lane, Arr2)):
+            _raise('TypeError', 'only 0-dimensional arrays can be converted to Python scalars (brentq callback returned '
+                   'an array for %s)' % name)
+    fat, fbt = to_term(fa), to_term(fb)
+    c.event('brentq_pre', {'a': to_term(a), 'b': to_term(b), 'fa': fat, 'fb': fbt}, State.where)
+    if c.branch(ir.gt(ir.mul(fat, fbt), 0)):
+        _raise('ValueError', 'f(a) and f(b) must have different signs')
+    r = c.fresh('brentq_root')
+    c.assume(ir.and_(ir.le(to_term(a), r), ir.le(r, to_term(b))))
+    saved = State.safety
+    State.safety = False           # f is defined on [a, b] if it is at the end points (checked above with safety on)
+    try:
+        fr = I.call(f, [Sym(r)], {})
+        x = c.fresh('brentq_probe')
+        c.assume(ir.and_(ir.le(to_term(a), x), ir.le(x, to_term(b))))
+        fx = I.call(f, [Sym(x)], {})
+    finally:
+        State.safety = saved
+    c.assume(ir.eq(to_term(fr), 0))
+    c.event('brentq', {'a': to_term(a), 'b': to_term(b), 'fa': fat, 'fb': fbt, 'root': r, 'probe': x,
+                       'f_probe': to_term(fx)}, State.where)
+    return Sym(r)
+
+
+SCIPY_OPTIMIZE = Stub('scipy.optimize', {'brentq': sp_brentq})
+EXTERNAL['scipy.optimize'] = SCIPY_OPTIMIZE
+EXTERNAL['scipy'] = Stub('scipy', {'optimize': SCIPY_OPTIMIZE})
